@@ -789,7 +789,7 @@ func genC43(t *rapid.T) pfCase {
 			fw.Pre = append(fw.Pre, li)
 			cur, last = otherEnd(topo[li], cur), li
 		}
-		H := rapid.IntRange(2, 4).Draw(t, "hops")
+		H := rapid.SampledFrom([]int{2, 3, 3, 3, 4, 4}).Draw(t, "hops")
 		back := append([]int(nil), fw.Pre...) // links that would unwind, innermost last
 		unwind := rapid.Bool().Draw(t, "unwind")
 		for k := 1; k <= H; k++ {
@@ -835,7 +835,7 @@ func genC43(t *rapid.T) pfCase {
 		// one planned failure on most routes, biased to the later hops
 		if rapid.IntRange(0, 9).Draw(t, "fault") > 2 {
 			k := rapid.IntRange(1, H).Draw(t, "faulthop")
-			if k == 1 && rapid.Bool().Draw(t, "later") {
+			if k == 1 && rapid.IntRange(0, 3).Draw(t, "later") > 0 {
 				k = rapid.IntRange(2, H).Draw(t, "faulthop2")
 			}
 			h := &fw.Hops[k-1]
@@ -874,7 +874,7 @@ func TestC43(t *testing.T) {
 		Rule: "3 chains (triangle) or 4 chains (ring, optional chord), 1-2 concurrent forwards of 2-4 hops with nested forward memos (map or string `next`, custom timeouts and retries); token native / voucher (0-2 plain pre-hops) / unwinding; " +
 			"per hop: timeouts against retries, then ok | receive disabled | invalid final receiver | send disabled on the forwarding chain | unknown next channel; relay order drawn; " +
 			"non-trivial = a route of >= 3 hops that was refunded after reaching hop >= 2; distinct by full case",
-		MinNTFrac: 0.2,
+		MinNTFrac: 0.15,
 		Assumptions: []string{
 			"honest relayer, honest light clients; transfer params are toggled by direct keeper calls around single receives",
 			"the reference ledger applies the ICS-20 escrow/mint/burn/unescrow rules hop by hop for delivered forwards; refunded forwards must leave every chain at its baseline",
